@@ -241,7 +241,7 @@ func perturbStr(v string, width int) []string {
 	out := []string{"", v + "0", v + " ", " " + v, "0" + v, "+" + v, strings.ToLower(v), strings.ToUpper(v), "é", "  "}
 	if len(v) > 0 {
 		out = append(out, v[:len(v)-1], v[1:], "é"+v[1:], v[:len(v)-1]+"é")
-		out = append(out, strings.NewReplacer("I", "ı", "S", "ſ", "K", "K").Replace(v))
+		out = append(out, foldVariant(v))
 	}
 	if width > 0 {
 		out = append(out, strings.Repeat("7", width), strings.Repeat("7", width+1), strings.Repeat("Z", width))
@@ -250,6 +250,11 @@ func perturbStr(v string, width int) []string {
 		}
 	}
 	return out
+}
+
+// foldVariant replaces I, S, K by the non-ASCII runes whose upper or lower case they are (dotless i, long s, Kelvin sign).
+func foldVariant(v string) string {
+	return strings.NewReplacer("I", "ı", "S", "ſ", "K", "K").Replace(v)
 }
 
 func perturbInt(v int64) []int64 {
@@ -300,7 +305,17 @@ func genOpts(i int) gen.Opts {
 func genFile(r *rng.R, i int) (*ach.File, string) {
 	secs := append(gen.AllSECs(), "IAT", "ADV", "COR")
 	sec := secs[i%len(secs)]
-	return gen.FileOfSEC(r, sec, genOpts(i/len(secs))), sec
+	return fileOfSEC(r, sec, genOpts(i/len(secs))), sec
+}
+
+// fileOfSEC: gen.FileOfSEC gives up with a panic when the library (possibly changed) refuses everything it builds.
+func fileOfSEC(r *rng.R, sec string, o gen.Opts) (f *ach.File) {
+	defer func() {
+		if e := recover(); e != nil {
+			f = nil
+		}
+	}()
+	return gen.FileOfSEC(r, sec, o)
 }
 
 // ---------------------------------------------------------------- correspondence
@@ -361,6 +376,9 @@ func corr(args []string) {
 	}
 	for i := 0; i < *n; i++ {
 		f, _ := genFile(r, i)
+		if f == nil {
+			continue
+		}
 		for _, rec := range records(f) {
 			tn := typeName(rec)
 			if bases[tn] >= *perType || !defaultOpts(rec) || validate(rec) != "ACC" {
@@ -376,7 +394,11 @@ func corr(args []string) {
 				switch fv.Kind() {
 				case reflect.String:
 					old := fv.String()
-					for _, v := range uniqStr(append(append([]string{}, pf.Strs...), perturbStr(old, pf.Width)...)) {
+					cand := append(append([]string{}, pf.Strs...), perturbStr(old, pf.Width)...)
+					for _, m := range pf.Strs { // case variants of the accepted values (strings.ToUpper comparisons)
+						cand = append(cand, strings.ToLower(m), foldVariant(m), m+" ", " "+m)
+					}
+					for _, v := range uniqStr(cand) {
 						if v == old {
 							continue
 						}
@@ -596,7 +618,7 @@ func runCase(c dcase, p *plan) (f *fail, status string, detail string) {
 	// the first seed (of a few) whose generated file contains the record types of the case
 	var file *ach.File
 	for k := uint64(0); k < 40; k++ {
-		g := gen.FileOfSEC(rng.New(c.Seed+k), c.SEC, genOpts(c.Opt))
+		g := fileOfSEC(rng.New(c.Seed+k), c.SEC, genOpts(c.Opt))
 		if g != nil && apply(g, c.Set) {
 			file = g
 			break
@@ -774,7 +796,7 @@ func oracle(args []string) {
 		if f != nil {
 			enc(f)
 		}
-		if len(sum.Samples) < 12 {
+		if len(sum.Samples) < 40 {
 			sum.Samples = append(sum.Samples, map[string]any{"directed": c.Name, "in_width": c.InWidth, "status": status, "detail": detail})
 		}
 	}
@@ -782,8 +804,9 @@ func oracle(args []string) {
 	secs := append(gen.AllSECs(), "IAT", "ADV", "COR")
 	for i := 0; i < *n; i++ {
 		c := dcase{Source: "valid-width", Name: "random", SEC: secs[i%len(secs)], Opt: r.Intn(5), Seed: r.U64(), InWidth: true}
-		file := gen.FileOfSEC(rng.New(c.Seed), c.SEC, genOpts(c.Opt))
+		file := fileOfSEC(rng.New(c.Seed), c.SEC, genOpts(c.Opt))
 		if file == nil {
+			sum.Dist["generator-gave-up"]++
 			continue
 		}
 		rs := records(file)
